@@ -41,7 +41,7 @@ Inductive tid := Main | R (i : nat).
 Inductive call :=
 | CNext (r : nat) (v : val)      (* r.next(v) *)
 | CStop (r : nat) | CPause (r : nat) | CResume (r : nat) | CReset (r : nat) | CPlay (r : nat)
-| CSignal (c : nat) | CUnhang (c : nat) | CSetTest (c : nat) (b : bool)
+| CSignal (c : nat) | CUnhang (c : nat) | CSetTest (c : nat) (b : tval)
 | CFlowSet (c : nat) (v : val).  (* flowvar.value = v *)
 
 Inductive act :=
@@ -224,10 +224,17 @@ Definition do_play (r : nat) (w : world) : world * outcome :=
     end
   end.
 
+Definition err_exc (base : bool) : exc := if base then EBase else EUser.
+
+(* signal(): "if self.test:" - a test callable that raises leaves everything as it was *)
 Definition do_signal (c : nat) (w : world) : world * outcome :=
   match nth_error (cells w) c with
   | None => (w, Exc EBadId)
-  | Some x => let '(x', ws) := cell_signal x in sched_all ws (set_cell c x' w)
+  | Some x =>
+    match cell_err x with
+    | Some b => (w, Exc (err_exc b))
+    | None => let '(x', ws) := cell_signal x in sched_all ws (set_cell c x' w)
+    end
   end.
 
 Definition do_unhang (c : nat) (w : world) : world * outcome :=
@@ -236,7 +243,7 @@ Definition do_unhang (c : nat) (w : world) : world * outcome :=
   | Some x => let '(x', ws) := cell_unhang x in sched_all ws (set_cell c x' w)
   end.
 
-Definition do_settest (c : nat) (b : bool) (w : world) : world * outcome :=
+Definition do_settest (c : nat) (b : tval) (w : world) : world * outcome :=
   match nth_error (cells w) c with
   | None => (w, Exc EBadId)
   | Some x => (set_cell c (cell_settest b x) w, Ret VNone)
@@ -309,12 +316,17 @@ Definition do_wait (c : nat) (w : world) : world * option val * exc :=
     match cur w with
     | Some Main => (w, None, EException)
     | Some (R t) =>
+      match cell_err x with Some b => (w, None, err_exc b) | None =>
       if cell_test x then (w, Some (VInt 0), EBadId)
       else match tplayer (S (length (rts w))) w t with
            | None => (w, None, ERecursion)
            | Some p => let '(x', v) := cell_wait p x in (set_cell c x' w, Some v, EBadId)
            end
-    | None => if cell_test x then (w, Some (VInt 0), EBadId) else (w, None, EAttribute)
+      end
+    | None =>
+      match cell_err x with Some b => (w, None, err_exc b) | None =>
+      if cell_test x then (w, Some (VInt 0), EBadId) else (w, None, EAttribute)
+      end
     end
   end.
 
@@ -485,6 +497,7 @@ Definition top (fuel : nat) (o : top_op) (w : world) : world * outcome :=
       let '(w2, o) := next_ fuel r VAwake w1 in           (* task.__awake__(clock) *)
       match o with
       | Ret (VInt d) => (set_queue (enqueue (t + d) r (queue w2)) w2, o)
+      | Ret (VFloat d) => (set_queue (enqueue (t + d) r (queue w2)) w2, o)   (* not bool: isinstance(delta, bool) excluded *)
       | _ => (w2, o)
       end
     end
@@ -508,6 +521,7 @@ Definition init_world (defs : list rdef) (cs : list ckind) : world :=
 Definition enc_val (v : val) : list Z :=
   match v with
   | VNone => [0] | VInt z => [1; z] | VStr k => [2; k] | VHang => [3] | VAwake => [4] | VUnbound => [5]
+  | VBool b => [6; if b then 1 else 0] | VFloat z => [7; z] | VEmptyStr => [8] | VEmptyList => [9]
   end.
 Definition enc_exc (e : exc) : Z :=
   match e with
@@ -521,13 +535,14 @@ Definition enc_state (s : state) : Z :=
 Definition enc_tid (t : option tid) : Z :=
   match t with None => -1 | Some Main => 0 | Some (R i) => Z.of_nat i + 1 end.
 Definition enc_rt (x : rt) : list Z :=
-  [enc_state (st x); match iter x with None => 0 | Some _ => 1 end] ++ enc_val (lastv x)
+  [enc_state (st x); match iter x with None => 0 | Some _ => 1 end; secs x; enc_tid (parent x)] ++ enc_val (lastv x)
   ++ match term x with None => [0] | Some v => 1 :: enc_val v end.
 Definition enc_cell (c : cell) : list Z :=
   match ckind_of c with
   | CCond b => [0; if b then 1 else 0]
   | CFlow None => [1; 0]
   | CFlow (Some v) => [1; 1] ++ enc_val v
+  | CCondErr b => [0; if b then 3 else 2]
   end ++ [Z.of_nat (length (waiting c))] ++ map Z.of_nat (waiting c).
 Definition enc_world (w : world) : list Z :=
   [enc_tid (cur w); main_secs w; if poison w then 1 else 0]
@@ -540,7 +555,7 @@ Definition enc_call (c : call) : list Z :=
   | CStop r => [1; Z.of_nat r] | CPause r => [2; Z.of_nat r] | CResume r => [3; Z.of_nat r]
   | CReset r => [4; Z.of_nat r] | CPlay r => [5; Z.of_nat r]
   | CSignal c => [6; Z.of_nat c] | CUnhang c => [7; Z.of_nat c]
-  | CSetTest c b => [8; Z.of_nat c; if b then 1 else 0]
+  | CSetTest c b => [8; Z.of_nat c; match b with TBool true => 1 | TBool false => 0 | TErr false => 2 | TErr true => 3 end]
   | CFlowSet c v => [9; Z.of_nat c] ++ enc_val v
   end.
 Definition enc_ev (e : nat * ev) : list Z :=
